@@ -179,6 +179,17 @@ func (l *L) Addmf(x int) int {
 	return x*7 + 1016
 }
 
+// Loop20 has a loop whose head lies inside its first 13 bytes: goom can mock it, but must REFUSE to relocate it into an origin
+// placeholder (fix_addr_amd64.go checkJumpBetween returns an error — the other refusals in this corpus are panics).
+//
+//go:noinline
+func Loop20(x int) int {
+	for i := x; i > 100000; i-- {
+		Sink += i
+	}
+	return x*7 + 1020
+}
+
 // ---- callbacks: class cb<k> returns 100000+k when it receives exactly the argument the probe passes, 100050+k otherwise
 
 // ProbeArg is what the probe passes to every target.
